@@ -636,7 +636,7 @@ def run_c01(ctx):
                        (5, 3, ['ok', 'ok', 'raise'], None, 'nested', ctx.pick(15, 80), ctx.pick(6, 15))],
             sim_plan=[('c01sim_n3w2', 3, 2, 'MC_DagEmpty3', ctx.pick(250, 2500), 60),
                       ('c01sim_n2w2', 2, 2, 'MC_DagInit', ctx.pick(100, 800), 50)],
-            dfs_plan=[(PAIR, ctx.pick(1500, 40000)), (REUSE, ctx.pick(1500, 40000))] + ([] if q else [(CHAIN3, 60000)]))
+            dfs_plan=[(PAIR, ctx.pick(1500, 40000)), (REUSE, ctx.pick(1500, 15000))] + ([] if q else [(CHAIN3, 15000)]))
     # the merge performed by Env.apply: what 'the complete update is readable' rests on
     import conf_envops
     conf_envops.run(ctx, tlc.workdir('c01envops'), 'C01')
@@ -655,7 +655,7 @@ def run_c02(ctx):
                        (4, 3, OUT_ALL, None, False, ctx.pick(20, 100), ctx.pick(10, 25)),
                        (5, 2, OUT_ALL, None, False, ctx.pick(8, 40), ctx.pick(8, 25))],
             sim_plan=[('c02sim_n3w2', 3, 2, 'MC_DagEmptyMal', ctx.pick(250, 2500), 60)],
-            dfs_plan=[(dict(PAIR, outcome={'1': 'badstatus'}), ctx.pick(1500, 40000))] + ([] if q else [(DIAMOND, 60000)]))
+            dfs_plan=[(dict(PAIR, outcome={'1': 'badstatus'}), ctx.pick(1500, 40000))] + ([] if q else [(DIAMOND, 15000)]))
     import conf_decide
     conf_decide.run(ctx, tlc.workdir('c02decide'), 'C02')
 
@@ -679,7 +679,7 @@ def run_c03(ctx):
                        (3, 2, ['ok', 'ok', 'fail', 'badstatus'], ['ABSENT', 'DONE'], False, ctx.pick(15, 60), ctx.pick(6, 15), 2)],
             sim_plan=[('c03sim_n2w2', 2, 2, 'MC_AnyInit', ctx.pick(200, 2000), 50),
                       ('c03sim_twice', 2, 2, 'MC_DagInitDone', ctx.pick(100, 800), 80, 2)],
-            dfs_plan=[(dict(PAIR, outcome={'1': 'notpair'}), ctx.pick(1500, 40000))] + ([] if q else [(CHAIN3, 60000)]))
+            dfs_plan=[(dict(PAIR, outcome={'1': 'notpair'}), ctx.pick(1500, 40000))] + ([] if q else [(CHAIN3, 15000)]))
     real_thread_drivers(ctx)
 
 
